@@ -49,7 +49,8 @@ where
     pub fn to_string(&self) -> String {
         let mut result = "".to_string();
         for i in 0..self.size() {
-            let mut index = self.start as i32 - i as i32;
+            // newest item first: the slot before `start`, then backwards
+            let mut index = self.start as i32 - (i as i32 + 1);
             if index < 0 {
                 index += self.capacity as i32;
             }
